@@ -36,8 +36,8 @@ the model would act is accepted when nothing changed (the later errors -- "no su
 savepoint", PendingRollbackError until the stale handle is rolled back -- are the
 "raises instead of acting" half of the statement and are not findings).
 
-Genuine findings on the unchanged tree (signatures SIG_OOO, SIG_STALE; patches in /verif/proposed_fixes/c23_*.diff;
-with both patches applied the thorough tier is silent):
+Genuine findings (signatures SIG_OOO -- open, listed in known_findings.json -- and SIG_STALE -- fixed in /repo by
+7391e04; patches in /verif/proposed_fixes/c23_*.diff; with both patches applied the thorough tier is silent):
  * out-of-order end of a savepoint does not unwind the inner savepoints (NestedTransaction._deactivate_from_connection);
  * rollback()/close()/__exit__ of an ended RootTransaction cancels the live savepoint of a newer transaction
    (RootTransaction._close_impl), after which that savepoint's rollback() silently does nothing.
